@@ -13,9 +13,22 @@ Sub-checks:
                canonical URI, which is the standard URI of the lower-cased p.
 * ambiguous  - string keys whose text is a datetime or a WBEM URI come back as
                that other type (documented limitation), not as a crash.
+* spellings  - the input forms the from_wbem_uri() docstrings document as
+               accepted (namespace type, optional leading slash/colon,
+               unquoted datetime, DSP0004 literal forms of char16, boolean,
+               integer and real values) denote the same path as the printed
+               URI.  (Not in DESIGN.md 4.7; added because the printer never
+               emits these forms, so that parser regressions in them were
+               invisible to the round trip.)
 * totality   - from_wbem_uri(text) of both classes returns a path of that
                class or raises ValueError for arbitrary text, grammar
                fragments and mutated printed URIs.
+
+A failing round trip is attributed to a root cause by repair (see
+NEUTRALIZERS): the recipe is simplified feature by feature; the feature whose
+removal changes the symptom names the signature.  What remains unexplained is
+localised to the smallest failing part (single key / path components /
+nesting) and reported as unexplained:<scope>:<symptom>.
 """
 
 import math
@@ -40,13 +53,19 @@ RULE = (
     "host also without namespace) and class paths, each printed in the 4 "
     "formats and by str() and parsed back; canonical: the same paths plus a "
     "drawn case-swap/keybinding-shuffle variant; ambiguous: a flat path with "
-    "a string key holding a printed URI or a datetime string; totality: "
+    "a string key holding a printed URI or a datetime string; spellings: a "
+    "flat path printed by pywbem plus 0-3 keys written in the literal forms "
+    "of DSP0004 (single-quoted char16, any-case booleans, binary/octal/hex/"
+    "signed integers, reals with exponent, INF, unquoted/quoted datetime) "
+    "and a documented variant of the URI head (namespace type, no leading "
+    "slash, no colon); totality: "
     "st.text(), joins of URI grammar tokens, grammar-shaped URIs with "
     "arbitrary value texts and mutated printed URIs, through both "
     "from_wbem_uri() methods.  Non-trivial = path with a non-string key, a "
     "nested reference, a host, or a string key containing one of \" \\ , = "
-    "newline ' (roundtrip, canonical, ambiguous); text containing at least "
-    "one of . = : / (totality).  Distinct = distinct generated example.")
+    "newline ' (roundtrip, canonical, ambiguous); at least one re-spelled "
+    "key or head (spellings); text containing at least one of . = : / "
+    "(totality).  Distinct = distinct generated example.")
 ASSUMPTIONS = [
     "CIM names (class, keybinding, namespace components) follow the DSP0004 "
     "identifier grammar in ASCII; 'differs only in lexical case' swaps the "
@@ -67,6 +86,13 @@ ASSUMPTIONS = [
     "string key values are XML-1.0-representable Unicode (no lone "
     "surrogates, no C0 controls other than TAB/LF/CR)",
     "UserWarning/MissingKeybindingsWarning issued by the parser are ignored",
+    "spellings asserts only input forms named in the from_wbem_uri() "
+    "docstrings (namespace types of DSP0207, tolerated missing leading slash "
+    "and colon of local URIs, unquoted datetime, INF/-INF) and the DSP0004 "
+    "value grammars those docstrings and _kbstr_to_cimval refer to "
+    "(charValue, booleanValue, integerValue, realValue); octal literals "
+    "containing the digit 0 and other forms pywbem does not claim are not "
+    "generated",
 ]
 
 FORMATS = ('standard', 'historical', 'canonical', 'cimobject')
@@ -221,9 +247,6 @@ def _exp_without_fraction(v):
         s = repr(float(v))
         return 'e' in s and '.' not in s
     return False
-
-
-_SPECIAL_CHARS = '"\\,=\n\''
 
 
 def _classify(kind, r):
@@ -570,7 +593,10 @@ def _localize(kind, recipe, fmt, sym):
             if kt != 'reference':
                 s = _check_fmt('ipath', _flat(kt, v), fmt)
                 if s is not None:
-                    return kt + '-key', s
+                    fam = ('integer' if kt in S.INT_TYPES or kt == 'int'
+                           else 'real' if kt in S.REAL_TYPES or
+                           kt == 'float' else kt)
+                    return fam + '-key', s
     for p in paths:
         keys = [k for k in p['keys'] if k[1] != 'reference'] or \
             [('k', 'uint8', 1)]
@@ -880,26 +906,30 @@ def spellings_oracle(ctx, ex):
             header = 'asis'
         if header == 'nocolon' and recipe['namespace'] is not None:
             header = 'noslash'
+        texts = [('value-forms', text)]
         if header == 'noslash':
-            text = text[1:]
+            texts.append((header, text[1:]))
         elif header == 'nocolon':
-            text = text[2:]
+            texts.append((header, text[2:]))
         elif header != 'asis':
-            text = header + ':' + text
+            texts.append(('namespace-type', header + ':' + text))
         classes.append('header:' + header)
-        try:
-            q = _parser(kind)(text)
-        except ValueError as exc:
-            ctx.fail('documented-spelling-rejected:%s:%s' % (
-                header if header in ('asis', 'noslash', 'nocolon')
-                else 'namespace-type', _msgclass(exc)),
-                '%r (same path as %r) is rejected: %s' % (text, e, exc))
-            q = None
-    if q is not None:
-        d = _diff(q, e)
-        if d is not None:
-            ctx.fail('documented-spelling-parsed-differently:' + d,
-                     '%r is parsed as %r, expected %r' % (text, q, e))
+        for what, t in texts:
+            # (the variant of the URI head is only examined if the URI with
+            # the head as printed is fine)
+            try:
+                q = _parser(kind)(t)
+            except ValueError as exc:
+                ctx.fail('documented-spelling-rejected:%s:%s' % (
+                    what, _msgclass(exc)),
+                    '%r (same path as %r) is rejected: %s' % (t, e, exc))
+                break
+            d = _diff(q, e)
+            if d is not None:
+                ctx.fail('documented-spelling-parsed-differently:%s:%s' %
+                         (what, d),
+                         '%r is parsed as %r, expected %r' % (t, q, e))
+                break
     ctx.case(nontrivial=bool(extras) or header != 'asis', classes=classes)
 
 
@@ -1050,17 +1080,62 @@ def totality_oracle(ctx, ex):
     ctx.case(nontrivial=any(c in text for c in '.=:/'), classes=classes)
 
 
-SENSITIVITY = []
+# Mutations of pywbem (one at a time, scratch worktree of /repo HEAD, quick
+# tier, VERIF_SEED=1) -> new signatures reported in addition to the findings
+# of the unchanged tree.
+SENSITIVITY = [
+    "to_wbem_uri case_sorted(): sort before lower-casing ([case(k) for k in "
+    "sorted(keys)]) -> canonical/canonical-uri-depends-on-keynames, "
+    "canonical/canonical-uri-is-not-standard-uri-of-lowercased-path",
+    "to_wbem_uri: string keys escape '\"' but not '\\' -> "
+    "roundtrip/unexplained:string-key:wrong-value, "
+    "roundtrip/unexplained:string-key:rejected-by-parser, "
+    "ambiguous/string-key-that-reads-as-reference:rejected-by-parser",
+    "WBEM_URI_KB_FINDALL_REGEXP without the single-quoted alternative -> "
+    "spellings/documented-spelling-parsed-differently:value-forms:keynames "
+    "(not visible "
+    "to the round trip: the printer never writes single quotes)",
+    "_kbstr_to_cimval tries CIMDateTime before from_wbem_uri -> NOT caught: "
+    "equivalent mutant (no text is both a datetime value and a WBEM URI)",
+    "_kbstr_to_cimval: no unescaping of double-quoted values -> "
+    "roundtrip/unexplained:string-key:wrong-value, roundtrip/unexplained:"
+    "nested-reference:wrong-type:reference-comes-back-as-string:all-formats",
+    "to_wbem_uri: nested reference printed with the default format instead "
+    "of the requested one -> canonical/canonical-uri-depends-on-nested-host "
+    "(-classname, -namespace, -keynames), "
+    "roundtrip/unexplained:nested-reference:wrong-host:cimobject",
+    "to_wbem_uri: host not lower-cased in canonical format -> "
+    "canonical/canonical-uri-depends-on-host",
+    "_KB_DOUBLE_QUOTED = '\"[^\"]*\"' (no backslash escapes) -> "
+    "roundtrip/unexplained:string-key:rejected-by-parser, "
+    "roundtrip/unexplained:nested-reference:rejected-by-parser:all-formats",
+    "WBEM_URI_INSTANCEPATH_REGEXP: namespace restricted to one level -> "
+    "roundtrip/unexplained:instance-path-components:rejected-by-parser:"
+    "all-formats",
+    "_utils.DECIMAL_VALUE without '-' -> "
+    "roundtrip/unexplained:integer-key:rejected-by-parser",
+    "_utils.REAL_VALUE without INF/-INF -> "
+    "roundtrip/unexplained:real-key:rejected-by-parser",
+    "to_wbem_uri: reference key value not backslash-escaped -> "
+    "roundtrip/unexplained:nested-reference:rejected-by-parser:all-formats",
+    "from_wbem_uri: last keybinding dropped (findall(...)[:-1]) -> "
+    "roundtrip/unexplained:instance-path-components:wrong-keynames:"
+    "all-formats",
+    "CIMClassName.to_wbem_uri: classname not lower-cased in canonical format "
+    "-> canonical/canonical-uri-depends-on-classname",
+    "_kbstr_to_cimval: char16 length check replaced by cimval[0] -> "
+    "totality/leak:IndexError@_cim_obj:_kbstr_to_cimval:returncimval_0",
+]
 
 SUBCHECKS = [
     Sub('roundtrip', strategy=roundtrip_strategy, oracle=roundtrip_oracle,
-        quick=(16, 1200), thorough=(16, 40000)),
+        quick=(16, 1200), thorough=(16, 30000)),
     Sub('canonical', strategy=canonical_strategy, oracle=canonical_oracle,
-        quick=(8, 1000), thorough=(16, 30000)),
+        quick=(8, 1000), thorough=(16, 15000)),
     Sub('ambiguous', strategy=ambiguous_strategy, oracle=ambiguous_oracle,
-        quick=(8, 800), thorough=(16, 20000)),
+        quick=(8, 600), thorough=(16, 8000)),
     Sub('spellings', strategy=spellings_strategy, oracle=spellings_oracle,
-        quick=(8, 800), thorough=(16, 20000)),
+        quick=(8, 800), thorough=(16, 8000)),
     Sub('totality', strategy=totality_strategy, oracle=totality_oracle,
-        quick=(16, 3000), thorough=(16, 100000)),
+        quick=(16, 2500), thorough=(16, 50000)),
 ]
